@@ -295,6 +295,34 @@ def no_value_carried_between_groups(ck, rule):
             comp_bound = {y.id for c in ast.walk(own) if isinstance(c, ast.comprehension) for y in ast.walk(c.target) if isinstance(y, ast.Name)}
             for x in ast.walk(own):
                 if isinstance(x, ast.Name) and isinstance(x.ctx, ast.Load) and x.id in stored and x.id not in da[id(st)] and x.id not in comp_bound:
+                    # correlated conditions (`if c: v = ...` ... `if c: use(v)`) are beyond a path-insensitive dataflow: refuse
+                    par_f = {c0: p0 for p0 in ast.walk(fake) for c0 in ast.iter_child_nodes(p0)}
+
+                    def guards(node0):
+                        out0 = {}
+                        while node0 in par_f:
+                            node0 = par_f[node0]
+                            if isinstance(node0, ast.If):
+                                out0[id(node0)] = ast.unparse(node0.test)
+                        return out0
+                    read_g = guards(st)
+                    # conjuncts evaluated before the read inside its own test (`if eligible and resolved:`) guard it as well
+                    extra_r = set()
+                    for bo in ast.walk(own):
+                        if isinstance(bo, ast.BoolOp) and isinstance(bo.op, ast.And):
+                            for k1, v1 in enumerate(bo.values):
+                                if any(z1 is x for z1 in ast.walk(v1)):
+                                    extra_r |= {ast.unparse(v0) for v0 in bo.values[:k1]}
+                    correlated = False
+                    for y0 in ast.walk(fake):
+                        if isinstance(y0, ast.Name) and isinstance(y0.ctx, ast.Store) and y0.id == x.id:
+                            asg_g = guards(y0)
+                            own_a = {t0 for k0, t0 in asg_g.items() if k0 not in read_g}       # tests around the binding only
+                            own_r = {t0 for k0, t0 in read_g.items() if k0 not in asg_g} | extra_r   # tests around the read only
+                            correlated = correlated or bool(own_a & own_r)
+                    if correlated:
+                        raise AnalysisError(f"{where(fn, lp)}: `{x.id}` is bound and read under the same test in the group loop - whether "
+                                            "the read can see an earlier group's value is not decided by this rule")
                     n += 1
                     ck.violation(rule, f"{short(fn)}:{x.id}:carried", where(fn, lp),
                                  f"`{x.id}` is read in the group loop where it is bound only on some paths of the same iteration: for a "
